@@ -67,7 +67,9 @@ Theorem C30_real_valued_strict : forall (D : decls) (k : setkind) (e : expr),
   (check1 D (ISet k e) = Ok <-> (forall l, leaf l e -> real_leaf num_strict D l)).
 Proof. intros D k e; exact (should_be_real_strict D e). Qed.
 
-(** ... and is false without that exclusion: the tolerance admits a non-real literal. *)
+(** ... and is false without that exclusion: the tolerance lets a non-real literal through
+    (`SET-PHASE 0 "xy" 1e-17i` type-checks).  Known finding C30 tiny-imaginary-accepted; the
+    instance checker below uses the STRICT rule, so such inputs are reported (as a known finding). *)
 Theorem C30_real_valued_strict_refuted :
   exists D e, should_be_real D e = Ok /\ ~ (forall l, leaf l e -> real_leaf num_strict D l).
 Proof. exact should_be_real_strict_refuted. Qed.
